@@ -229,3 +229,23 @@ def tokens_unit(text):
 
 def rec_unit(text):
     return PRE + model() + TOK_STANDIN + rec_fn(text) + vlib.verus_canary("canary_c20_rec", "x: u64", []) + "\n} // verus!\nfn main() {}\n"
+
+
+def entry_fn(text):
+    """`expand_mechdown_includes` (whole body, the entry of the expansion): `.map_err(<closure>)?` -> `?`, `P.canonicalize()?` -> `canonicalize(P)?`,
+    `HashSet<PathBuf>` -> `HashSet<u64>`, the call of the recursive function -> its stand-in (modular)"""
+    sig, body = extract_fn(text, "expand_mechdown_includes")
+    b = re.sub(r"//[^\n]*", "", body[body.index("{") + 1:body.rindex("}")]).replace("\r", "")
+    b = _map_err_q(b)
+    b = re.sub(r"\b(\w+)\.canonicalize\(\)\s*\?", r"canonicalize(\1)?", b)
+    b = re.sub(r"\blet\s+mut\s+(\w+)\s*:\s*HashSet<PathBuf>", r"let mut \1: HashSet<u64>", b)
+    b, n = re.subn(r"\bexpand_mechdown_includes_recursive\(", "expand_mechdown_includes_recursive_rec(", b)
+    if n != 1 or re.search(r"\b(map_err|MechError|PathBuf)\b", b):
+        raise AnchorLost("expand_mechdown_includes: the body is outside the transcription rules")
+    return ("fn expand_mechdown_includes(path: &u64) -> (r: Option<Str>)\n"
+            "  // loading starts with NO file being expanded: the result is the expansion of the (canonical) file with an empty active set\n"
+            "  ensures (match canon(*path) { None => r is None, Some(c) => (match r { Some(t) => rec(c, Set::<u64>::empty()) == Some(t.v@), None => rec(c, Set::<u64>::empty()) is None }) }),\n{\n" + b + "\n}\n")
+
+
+def entry_unit(text):
+    return PRE + model() + entry_fn(text) + vlib.verus_canary("canary_c20_entry", "x: u64", []) + "\n} // verus!\nfn main() {}\n"
